@@ -1,5 +1,374 @@
 package main
 
-import "verif/harness/internal/vh"
+import (
+	"encoding/json"
+	"fmt"
+	"net"
+	"os"
+	"sort"
+	"strings"
+	"sync"
 
-func runC17(r *vh.Rng, n int, w *vh.Writer) int { return 2 }
+	"github.com/enbility/ship-go/api"
+
+	"verif/harness/internal/vh"
+)
+
+const own17 = "own0"
+
+// the address table of every C17 case: both byte forms of one IPv4 address (same text), a
+// second IPv4, an IPv4 link-local (kept), a global IPv6, two IPv6 link-local (dropped)
+var atab17 = []net.IP{
+	net.IPv4(192, 168, 1, 10),
+	net.IPv4(192, 168, 1, 10).To4(),
+	net.IPv4(10, 0, 0, 2).To4(),
+	net.ParseIP("fe80::1"),
+	net.ParseIP("2001:db8::1"),
+	net.ParseIP("fe80::2:3"),
+	net.IPv4(169, 254, 1, 5),
+}
+
+func coqAddr(ip net.IP) string {
+	return fmt.Sprintf("{| a_v4 := %s; a_ll6 := %s; a_text := %s |}", vh.B(ip.To4() != nil),
+		vh.B(ip.To4() == nil && ip.IsLinkLocalUnicast()), pk(ip.String()))
+}
+
+func aindex(ip net.IP) int {
+	for i, a := range atab17 {
+		if a.String() == ip.String() {
+			return i
+		}
+	}
+	return 99
+}
+
+// the TXT record table of every C17 case (mirrored by MdnsMap.std_recs): four services, a
+// second different record of service 1, seven damaged records
+func recTable() []map[string]string {
+	var recs []map[string]string
+	for k := 1; k <= 4; k++ {
+		recs = append(recs, map[string]string{"txtvers": "1", "id": fmt.Sprintf("i%d", k), "path": "/ship/", "ski": fmt.Sprintf("s%d", k),
+			"register": []string{"true", "false"}[(k+1)%2], "brand": fmt.Sprintf("b%d", k), "model": "m", "type": "t", "cat": "1,2"})
+	}
+	// fields of an existing entry are not replaced by a later, different record
+	recs = append(recs, map[string]string{"txtvers": "1", "id": "other", "path": "/x/", "ski": "s1", "register": "true", "serial": "9"})
+	return append(recs,
+		map[string]string{},
+		map[string]string{"txtvers": "2", "id": "i2", "path": "/ship/", "ski": "s2", "register": "true"},
+		map[string]string{"txtvers": "1", "id": "i3", "path": "/ship/", "ski": "s3", "register": "maybe"},
+		map[string]string{"txtvers": "1", "id": "i1", "path": "/ship/", "register": "true"},
+		map[string]string{"txtvers": "1", "path": "/ship/", "ski": "s4", "register": "false"},
+		map[string]string{"txtvers": "1", "id": "me", "path": "/ship/", "ski": own17, "register": "true"},
+		map[string]string{"txtvers": "1", "id": "i2", "ski": "s2", "register": "true"})
+}
+
+type ev17 struct {
+	rec    int
+	addrs  []int
+	remove bool
+}
+
+func genHistory(r *vh.Rng, nrecs int) []ev17 {
+	var ln int
+	switch r.Intn(4) {
+	case 0:
+		ln = 1 + r.Intn(6)
+	case 1:
+		ln = 6 + r.Intn(12)
+	default:
+		ln = 15 + r.Intn(26)
+	}
+	focus := r.Intn(3) // 0: all services, 1: mostly two services, 2: mostly one
+	evs := make([]ev17, 0, ln)
+	for i := 0; i < ln; i++ {
+		var e ev17
+		switch {
+		case r.Chance(12):
+			e.rec = 5 + r.Intn(nrecs-5) // damaged record
+		case focus == 2 && r.Chance(70):
+			e.rec = vh.Pick(r, []int{0, 0, 0, 4})
+		case focus == 1 && r.Chance(70):
+			e.rec = vh.Pick(r, []int{0, 1, 4})
+		default:
+			e.rec = r.Intn(5)
+		}
+		e.remove = r.Chance(18)
+		if e.remove && r.Chance(70) {
+			e.addrs = nil // avahi removes carry no address
+		} else {
+			k := vh.Pick(r, []int{0, 1, 1, 1, 2, 2, 3})
+			for j := 0; j < k; j++ {
+				if j > 0 && r.Chance(20) {
+					e.addrs = append(e.addrs, e.addrs[r.Intn(len(e.addrs))]) // duplicate inside one call
+				} else {
+					e.addrs = append(e.addrs, r.Intn(len(atab17)))
+				}
+			}
+		}
+		evs = append(evs, e)
+	}
+	return evs
+}
+
+func coqAobs(e *api.MdnsEntry) string {
+	if e == nil {
+		return "None"
+	}
+	idx := make([]string, len(e.Addresses))
+	for i, a := range e.Addresses {
+		idx[i] = fmt.Sprint(aindex(a))
+	}
+	return fmt.Sprintf("(Some ((%d)%%Z, %s%%nat))", e.Port, vh.List(idx))
+}
+
+func coqKeys(ks []string) string {
+	xs := make([]string, len(ks))
+	for i, k := range ks {
+		xs[i] = pk(k)
+	}
+	return vh.List(xs)
+}
+
+func coqFentry(e *api.MdnsEntry) string {
+	as := make([]string, len(e.Addresses))
+	for i, a := range e.Addresses {
+		as[i] = coqAddr(a)
+	}
+	inner := coqEntry(e)
+	inner = strings.TrimSuffix(strings.TrimPrefix(inner, "(Some "), ")")
+	return fmt.Sprintf("{| f_e := %s; f_name := %s; f_host := %s; f_port := (%d)%%Z; f_addrs := %s |}", inner, pk(e.Name), pk(e.Host), e.Port, vh.List(as))
+}
+
+func coqMmap(m map[string]*api.MdnsEntry) string {
+	ks := make([]string, 0, len(m))
+	for k := range m {
+		ks = append(ks, k)
+	}
+	sort.Strings(ks)
+	xs := make([]string, len(ks))
+	for i, k := range ks {
+		xs[i] = "(" + pk(k) + ", " + coqFentry(m[k]) + ")"
+	}
+	return vh.List(xs)
+}
+
+func keysOf[V any](m map[string]V) []string {
+	ks := make([]string, 0, len(m))
+	for k := range m {
+		ks = append(ks, k)
+	}
+	sort.Strings(ks)
+	return ks
+}
+
+func sameEntry(a, b *api.MdnsEntry) bool {
+	if (a == nil) != (b == nil) {
+		return false
+	}
+	if a == nil {
+		return true
+	}
+	if a.Port != b.Port || a.Name != b.Name || len(a.Addresses) != len(b.Addresses) {
+		return false
+	}
+	for i := range a.Addresses {
+		if a.Addresses[i].String() != b.Addresses[i].String() {
+			return false
+		}
+	}
+	return true
+}
+
+func entrySample17(e *api.MdnsEntry) any {
+	if e == nil {
+		return nil
+	}
+	as := make([]string, len(e.Addresses))
+	for i, a := range e.Addresses {
+		as[i] = a.String()
+	}
+	return map[string]any{"name": e.Name, "port": e.Port, "id": e.Identifier, "addresses": as}
+}
+
+func runC17(r *vh.Rng, n int, w *vh.Writer) int {
+	for c := 0; c < n; c++ {
+		recs := recTable()
+		evs := genHistory(r, len(recs))
+		if c == 0 { // the witness of the first-add question: one add carrying an address twice
+			evs = []ev17{{rec: 0, addrs: []int{2, 2}}}
+		}
+		if c == 1 { // both byte forms of one address in the first add, then the same address again
+			evs = []ev17{{rec: 1, addrs: []int{0, 1}}, {rec: 1, addrs: []int{1}}, {rec: 1, remove: true}, {rec: 1, addrs: []int{3}}}
+		}
+		m := newManager(own17, "b", "m", "t", "s", nil, "id")
+		rep := &reporter{}
+		m.VerifSetReport(rep)
+		cb := m.VerifResolverCallback()
+		expected := 0
+		prevKeys := []string{}
+		var obs []string
+		var sampleEvs []any
+		nontrivial := false
+		for i, e := range evs {
+			el := recs[e.rec]
+			var ips []net.IP
+			for _, k := range e.addrs {
+				ips = append(ips, atab17[k])
+			}
+			key, hasKey := el["ski"]
+			before := m.VerifEntries()
+			var bEntry *api.MdnsEntry
+			if hasKey {
+				if b, ok := before[key]; ok {
+					bEntry = &b
+					nontrivial = true
+				}
+			}
+			// the callback gets its own copy of the elements map, as the providers hand over fresh maps
+			elc := make(map[string]string, len(el))
+			for k, v := range el {
+				elc[k] = v
+			}
+			err := call("resolver callback", func() { cb(elc, fmt.Sprintf("n%d", i), fmt.Sprintf("h%d", i), ips, 1000+i, e.remove) })
+			if err != nil {
+				fmt.Fprintln(os.Stderr, "mdnsdrv:", err)
+				return 1
+			}
+			after := m.VerifEntries()
+			var aEntry *api.MdnsEntry
+			if hasKey {
+				if a, ok := after[key]; ok {
+					aEntry = &a
+				}
+			}
+			keys := keysOf(after)
+			changed := strings.Join(keys, "\x00") != strings.Join(prevKeys, "\x00") || !sameEntry(bEntry, aEntry)
+			prevKeys = keys
+			repObs := "None"
+			var repSample any
+			if changed {
+				expected++
+				if !rep.waitCount(expected) {
+					fmt.Fprintf(os.Stderr, "mdnsdrv: event %d changed the stored entries but no report arrived within the cap\n", i)
+					return 1
+				}
+			}
+			if got := rep.count(); got > expected {
+				fmt.Fprintf(os.Stderr, "mdnsdrv: %d reports after event %d although the stored entries changed only %d times\n", got, i, expected)
+				return 1
+			}
+			if changed {
+				snap := rep.get(expected - 1)
+				var rEntry *api.MdnsEntry
+				if hasKey {
+					rEntry = snap.entries[key]
+				}
+				repObs = fmt.Sprintf("(Some (%s, %s))", coqKeys(keysOf(snap.entries)), coqAobs(rEntry))
+				repSample = map[string]any{"skis": keysOf(snap.entries), "entry": entrySample17(rEntry)}
+			}
+			obs = append(obs, fmt.Sprintf("{| o_keys := %s; o_before := %s; o_after := %s; o_rep := %s |}", coqKeys(keys), coqAobs(bEntry), coqAobs(aEntry), repObs))
+			sampleEvs = append(sampleEvs, map[string]any{"txt": el, "addrs": e.addrs, "remove": e.remove, "stored_skis": keys,
+				"entry_after": entrySample17(aEntry), "report": repSample})
+		}
+		// full final state and full last report
+		fin := m.VerifEntries()
+		finp := make(map[string]*api.MdnsEntry, len(fin))
+		for k := range fin {
+			e := fin[k]
+			finp[k] = &e
+		}
+		last := "None"
+		if expected > 0 {
+			last = "(Some " + coqMmap(rep.get(expected-1).entries) + ")"
+		}
+		evsCoq := make([]string, len(evs))
+		var key strings.Builder
+		for i, e := range evs {
+			idx := make([]string, len(e.addrs))
+			for j, a := range e.addrs {
+				idx[j] = fmt.Sprint(a)
+			}
+			evsCoq[i] = fmt.Sprintf("{| ce_rec := %d%%nat; ce_addrs := %s%%nat; ce_remove := %s |}", e.rec, vh.List(idx), vh.B(e.remove))
+			fmt.Fprintf(&key, "%v|%v|%v;", recs[e.rec], e.addrs, e.remove)
+		}
+		kind := "history:1-5"
+		switch {
+		case len(evs) > 25:
+			kind = "history:26-40"
+		case len(evs) > 12:
+			kind = "history:13-25"
+		case len(evs) > 5:
+			kind = "history:6-12"
+		}
+		w.Put(vh.Case{
+			Coq: fmt.Sprintf("{| h_own := %s; h_recs := std_recs; h_atab := std_atab; h_evs := %s; h_obs := %s; h_final := %s; h_last := %s |}",
+				pk(own17), vh.List(evsCoq), vh.List(obs), coqMmap(finp), last),
+			Nontrivial: nontrivial,
+			Key:        key.String(),
+			Kind:       kind,
+			Sample:     map[string]any{"reader_ski": own17, "events": sampleEvs, "final_skis": keysOf(fin), "reports": expected},
+		})
+	}
+	inversionReplay(r)
+	return 0
+}
+
+// ---- statistical replay of the report inversion (never decides anything) ----
+// a receiver that does not serialise: it records, per report, how many entries the snapshot
+// carried, in the order the goroutines got to it
+type racyReporter struct {
+	mu    sync.Mutex
+	sizes []int
+}
+
+func (r *racyReporter) ReportMdnsEntries(entries map[string]*api.MdnsEntry, newEntries bool) {
+	n := len(entries)
+	r.mu.Lock()
+	r.sizes = append(r.sizes, n)
+	r.mu.Unlock()
+}
+func (r *racyReporter) count() int {
+	r.mu.Lock()
+	defer r.mu.Unlock()
+	return len(r.sizes)
+}
+
+func inversionReplay(r *vh.Rng) {
+	if *side == "" {
+		*side = *out + ".inversion.json"
+	}
+	trials, inverted, incomplete := 3000, 0, 0
+	el := func(k int) map[string]string {
+		return map[string]string{"txtvers": "1", "id": fmt.Sprint("i", k), "path": "/ship/", "ski": fmt.Sprint("s", k), "register": "true"}
+	}
+	for t := 0; t < trials; t++ {
+		m := newManager(own17, "b", "m", "t", "s", nil, "id")
+		rep := &racyReporter{}
+		m.VerifSetReport(rep)
+		cb := m.VerifResolverCallback()
+		cb(el(1), "n1", "h1", []net.IP{atab17[0]}, 1001, false)
+		cb(el(2), "n2", "h2", []net.IP{atab17[2]}, 1002, false)
+		ok := false
+		for i := 0; i < 200000; i++ {
+			if rep.count() >= 2 {
+				ok = true
+				break
+			}
+			if i > 1000 {
+				sleepShort()
+			}
+		}
+		if !ok {
+			incomplete++
+			continue
+		}
+		rep.mu.Lock()
+		if rep.sizes[len(rep.sizes)-1] != 2 {
+			inverted++
+		}
+		rep.mu.Unlock()
+	}
+	b, _ := json.Marshal(map[string]any{"scenario": "two adds back to back, unserialised receiver", "trials": trials,
+		"last_delivered_report_is_not_the_final_map": inverted, "incomplete": incomplete})
+	_ = os.WriteFile(*side, b, 0o644)
+}
